@@ -417,6 +417,24 @@ class C20(MsgProp):
             for _ in range(per):
                 yield ("SERDEMSG " + g.message(r, n, "valid"), "generated", True)
             yield ("SERDEMSG " + g.message(r, n, "valid", lens=10 ** 6), "lists-at-capacity", True)
+        # values the encoder would refuse are values all the same: unrecognised signal descriptors (aliases of table
+        # entries in high planes, other bands); floats stay finite (JSON has no NaN / inf, and the property excludes NaN)
+        for f in g.frags.values():
+            if f["macro"] == "msm_data_seg_frag":
+                nums = [x for x in g.numbers if g.mod_of[x] and f["id"] in g.frags[g.mod_of[x]]["refs"]]
+                for num in nums[:2]:
+                    mf = g.frags[g.mod_of[num]]
+                    for _ in range(4):
+                        toks = []
+                        for _n, x in mf["fields"]:
+                            toks += g.msm(r, f, "valid", invalid="badsig") if x == f["id"] else g.frag(r, x, "valid")
+                        yield ("SERDEMSG %d %s" % (num, " ".join(toks)), "unrecognised-descriptor", True)
+        for n, fid in ((1059, "df_msg1059_biases"), (1065, "df_msg1065_biases")):
+            if n in g.numbers:
+                for _ in range(6):
+                    head = g.frag(r, g.mod_of[n], "valid")
+                    c = [k for k, t in enumerate(head) if t.startswith("c")][0]
+                    yield ("SERDEMSG %d %s" % (n, " ".join(head[:c] + g.bias_list(r, fid, "valid", shape="unrecognised"))), "unrecognised-descriptor", True)
         from msggen import hostile_payload
         for n in g.numbers:
             for _ in range(2 if ctx.tier == "quick" else 20):
